@@ -1,8 +1,30 @@
-(** C09 — with synchronous writes, acknowledged writes survive any crash. *)
+(** C09 — with synchronous writes, acknowledged writes survive any crash.
+
+    Partial (record granularity).  With SyncWrites, for every workload, every annotation and
+    every crash position: every record acknowledged before the crash is among the records
+    recovery loads, at its position, with its value ([C09_acked_records_recovered]; [t_ackpos]
+    is the length of the accepted-record sequence at the last acknowledgement).  Not proved
+    here (correspondence only): that the LSM lookup over the recovered sources returns the
+    last record of a key (C01), and that recovered value pointers resolve. *)
 From Coq Require Import List NArith.
 From NoKV Require Import Model.Fs Model.Recovery Spec.CrashSpec Proofs.CrashProofs.
 Import ListNotations.
 Local Open Scope N_scope.
+
+Theorem C09_acked_records_recovered : forall w p seg nb, 0 < seg ->
+  let st := state_at p (compile true w) (init seg nb) in
+  let n := N.to_nat (t_ackpos (snd st)) in
+  (n <= length (recovered_log (recover (crash st))))%nat /\
+  firstn n (recovered_log (recover (crash st))) = firstn n (t_log (snd st)).
+Proof. exact acked_recovered. Qed.
+Print Assumptions C09_acked_records_recovered.
+
+(** non-vacuity: a state with two acknowledged, recovered records *)
+Theorem C09_example :
+  let st := state_at 6 (compile true w13) (init 1 1) in
+  (t_ackpos (snd st), length (recovered_log (recover (crash st)))) = (2, 2%nat).
+Proof. exact acked_example. Qed.
+Print Assumptions C09_example.
 
 (** the boolean oracle used by the correspondence decides the specification *)
 Theorem C09_oracle_decides : forall bs acked keys rd,
